@@ -562,3 +562,61 @@ func sameExpr(a, b ssa.Value, d int) bool {
 	}
 	return false
 }
+
+// Implementations returns the repo functions that can be the target of an interface method call (CHA restricted
+// to the analysed module's types).
+func (p *Prog) Implementations(m *types.Func) []*ssa.Function {
+	if p.implCache == nil {
+		p.implCache = map[*types.Func][]*ssa.Function{}
+	}
+	if r, ok := p.implCache[m]; ok {
+		return r
+	}
+	var out []*ssa.Function
+	sig, _ := m.Type().(*types.Signature)
+	if sig == nil || sig.Recv() == nil {
+		p.implCache[m] = nil
+		return nil
+	}
+	iface, _ := sig.Recv().Type().Underlying().(*types.Interface)
+	if iface == nil {
+		p.implCache[m] = nil
+		return nil
+	}
+	for _, pk := range p.Pkgs {
+		if pk.Types == nil {
+			continue
+		}
+		for _, name := range pk.Types.Scope().Names() {
+			tn, ok := pk.Types.Scope().Lookup(name).(*types.TypeName)
+			if !ok {
+				continue
+			}
+			n, ok := tn.Type().(*types.Named)
+			if !ok || types.IsInterface(n) {
+				continue
+			}
+			for _, t := range []types.Type{n, types.NewPointer(n)} {
+				if !types.Implements(t, iface) {
+					continue
+				}
+				sel := p.SSA.MethodSets.MethodSet(t).Lookup(m.Pkg(), m.Name())
+				if sel == nil {
+					continue
+				}
+				if fn := p.SSA.MethodValue(sel); fn != nil {
+					// unwrap promoted-method wrappers to the declared method
+					if o, ok := sel.Obj().(*types.Func); ok {
+						if df := p.FuncOf(o); df != nil {
+							fn = df
+						}
+					}
+					out = append(out, fn)
+				}
+				break
+			}
+		}
+	}
+	p.implCache[m] = out
+	return out
+}
